@@ -186,8 +186,35 @@ where
     Si: Sink<OutboundIn, Error = anyhow::Error> + Unpin,
     St: Stream<Item = Result<InboundIn, anyhow::Error>> + Unpin,
 {
-    let (outbound_sink, outbound_stream) = UdpFramed::new(outbound, BytesCodec).split();
+    let (outbound_sink, outbound_stream) = UdpFramed::new(outbound, DatagramCodec::default()).split();
     relay_bidirectional(inbound_sink, inbound_stream, outbound_sink, outbound_stream, first).await
+}
+
+/// One received datagram is one item, also when it is empty - which `BytesCodec` cannot tell from "nothing left".
+/// `UdpFramed` asks the decoder again after every item until it answers `None`: the first answer after a receive is
+/// the datagram, the second one ends the round.
+#[derive(Default)]
+struct DatagramCodec {
+    taken: bool,
+}
+
+impl Decoder for DatagramCodec {
+    type Item = BytesMut;
+    type Error = anyhow::Error;
+
+    fn decode(&mut self, src: &mut BytesMut) -> Result<Option<BytesMut>, Self::Error> {
+        self.taken = !self.taken;
+        Ok(if self.taken { Some(src.split()) } else { None })
+    }
+}
+
+impl Encoder<BytesMut> for DatagramCodec {
+    type Error = anyhow::Error;
+
+    fn encode(&mut self, item: BytesMut, dst: &mut BytesMut) -> Result<(), Self::Error> {
+        dst.extend_from_slice(&item);
+        Ok(())
+    }
 }
 
 async fn relay_bidirectional<ISink, IStream, O, OSink, OStream>(
